@@ -5,8 +5,8 @@ CONSTANTS
   KMax = 3
   Thin = 12
   Wide = FALSE
-  BsBound = 20
-  Methods = {"cg", "bicgstab.right", "gmres.right.K", "richardson"}
+  BsBound = 8
+  Methods = {"cg", "gmres.right.K", "richardson"}
 INIT Init
 NEXT Next
 INVARIANTS ProgMatchesRef TerminatesAtN CarriedResidual GmresMonotone
